@@ -327,6 +327,7 @@ pub fn judge(h: &History, recs: &[StepRec]) -> Result<u32, Failure> {
 
 /// All channel-selector outcomes of the current state through the hook.
 fn enumerate_hook(w: &World, reg: Reg, join: bool, h: &History, st: &mut Stats) -> Result<(), Failure> {
+    let _watch = w.watch();
     let snap = w.front.snapshot();
     for first in 0..72u32 {
         let mut rng = DryRng::new(vec![first, first.wrapping_mul(2654435761), first ^ 0x55], 99 + first as u64);
